@@ -233,6 +233,21 @@ def run(ctx):
             opts['cse'] = False
         add(f'r{i}', ucfg(sig=sig) if rng.random() < 0.8 or d != 3 else named_ucfg('2DPGA'), opts, progs,
             random_history(rng, d, 16 if q else 22, progs, fams=fams))
+    # (2a) sympy coefficients around failing calls, d = 4 with a null generator: squares of wedges (their grade-4 part vanishes
+    # only after simplification) before and after a division by e0 / a polarity whose generation raises
+    for i in range(4 if q else 30):
+        u = rng.choice([ucfg(sig=[0, 1, 1, 1]), named_ucfg('3DPGA'), ucfg(sig=[0, 1, 1, -1])])
+        null_key = 8 if u['basis'] else 1
+        vec = [1, 2, 4, 8]
+        v1, v2 = tuple(rng.sample(vec, 3)), tuple(rng.sample(vec, 3))
+        sym = [{'t': 'T1', 'kind': 'op', 'op': 'wedge_sq', 'args': [v1, v2], 'params': [], 'mode': 'sym'},
+               {'t': 'T1', 'kind': 'op', 'op': 'gp', 'args': [v1, v2], 'params': [], 'mode': 'sym'},
+               {'t': 'T1', 'kind': 'op', 'op': 'wedge_sq', 'args': [v2, v1], 'params': [], 'mode': 'sym'}]
+        fail = [{'t': 'T1', 'kind': 'op', 'op': 'div', 'args': [v1, (null_key,)], 'params': [], 'mode': 'num'},
+                {'t': 'T1', 'kind': 'op', 'op': 'polarity', 'args': [v2], 'params': [], 'mode': 'num'}]
+        rng.shuffle(fail)
+        hist = sym[:rng.randint(0, 2)] + fail[:rng.randint(1, 2)] + sym + fail + [dict(c) for c in sym]
+        add(f'y{i}', u, {'wrapper': rng.random() < 0.3}, {}, hist)
     res = run_sessions(jobs)
     vfiles = [r['values'] for r in res if r['n_values']]
     pfiles = [r['proto'] for r in res if r['n_proto']]
